@@ -39,3 +39,7 @@ type FaultPlan map[CallKey]Fault
 // TypedNil is a null object written the Go way: a typed nil pointer of the
 // strategy's object type (the reference treats it as null).
 type TypedNil struct{ Type string }
+
+// VUnordered is a list value whose order the statement leaves open: the reference
+// completes it like a list and compares it as a multiset.
+type VUnordered VList
